@@ -74,7 +74,7 @@ def check_one(m_abs, trailer: bytes, shared_options: bool = False, enc=None):
     global _SHARED_OPTS
     out = []
     op = m_abs[0]
-    m = av.build(m_abs)
+    m = av.build(av.fresh(m_abs))  # the message owns its field values: they die with it
     if enc:
         opts = mk_options(enc)
     elif shared_options:
